@@ -104,6 +104,10 @@ pub fn table() -> Vec<ConstCase> {
     t.push(i32c("ZERO_I32", "zero-value", "i32()", 0));
     t.push(u32c("ZERO_U32", "zero-value", "u32()", 0));
     t.push(ConstCase { name: "ZERO_BOOL".into(), decl: "const ZERO_BOOL: bool = bool();".into(), expect: Some((vec!["bool"], Bits::Bool(false))), form: "zero-value" });
+    t.push(ConstCase { name: "ZERO_F64".into(), decl: "const ZERO_F64: f64 = f64();".into(), expect: Some((vec!["f64"], Bits::F64(0))), form: "zero-value" });
+    t.push(ConstCase { name: "ZERO_F64_INFERRED".into(), decl: "const ZERO_F64_INFERRED = f64();".into(), expect: Some((vec!["f64"], Bits::F64(0))), form: "zero-value" });
+    t.push(ConstCase { name: "ZERO_I64".into(), decl: "const ZERO_I64: i64 = i64();".into(), expect: Some((vec!["i64"], Bits::Int(0))), form: "zero-value" });
+    t.push(ConstCase { name: "ZERO_U64".into(), decl: "const ZERO_U64: u64 = u64();".into(), expect: Some((vec!["u64"], Bits::Int(0))), form: "zero-value" });
     t.push(ConstCase { name: "ZERO_INFERRED".into(), decl: "const ZERO_INFERRED = f32();".into(), expect: Some((vec!["f32"], Bits::F32(0))), form: "zero-value" });
     // ---- conversions
     t.push(f32c("CONV_F_FROM_I", "conversion", "f32(3)", 3.0));
@@ -121,6 +125,11 @@ pub fn table() -> Vec<ConstCase> {
     t.push(ConstCase { name: "NS_MAT".into(), decl: "const NS_MAT = mat2x2<f32>(1.0, 0.0, 0.0, 1.0);".into(), expect: None, form: "non-scalar" });
     t.push(ConstCase { name: "NS_STRUCT".into(), decl: "struct NsS { a: f32, b: i32 }\nconst NS_STRUCT = NsS(1.0, 2);".into(), expect: None, form: "non-scalar" });
     t.push(ConstCase { name: "NS_ZERO_VEC".into(), decl: "const NS_ZERO_VEC = vec2<u32>();".into(), expect: None, form: "non-scalar" });
+    t.push(ConstCase { name: "NS_ZERO_VEC3F".into(), decl: "const NS_ZERO_VEC3F = vec3<f32>();".into(), expect: None, form: "non-scalar" });
+    t.push(ConstCase { name: "NS_ZERO_VEC4B".into(), decl: "const NS_ZERO_VEC4B = vec4<bool>();".into(), expect: None, form: "non-scalar" });
+    t.push(ConstCase { name: "NS_ZERO_MAT".into(), decl: "const NS_ZERO_MAT = mat2x2<f32>();".into(), expect: None, form: "non-scalar" });
+    t.push(ConstCase { name: "NS_ZERO_ARR".into(), decl: "const NS_ZERO_ARR = array<f32, 3>();".into(), expect: None, form: "non-scalar" });
+    t.push(ConstCase { name: "NS_ZERO_STRUCT".into(), decl: "struct NsZ { a: f32 }\nconst NS_ZERO_STRUCT = NsZ();".into(), expect: None, form: "non-scalar" });
     t.push(ConstCase { name: "NS_SPLAT".into(), decl: "const NS_SPLAT = vec4<f32>(0.5);".into(), expect: None, form: "non-scalar" });
     t
 }
